@@ -230,6 +230,10 @@ def rule_c06_shapley(prog: Program, col: Collector) -> None:
         else:
             oks = s[0] == "elem" and s[1] == ("call", ("global", "map"), (("global", P + "coalitions.player_to_coalition"),
                                                                        ("call", ("global", "range"), (nplayers,), ())), ())
+        outs = [e.value for e in ft.of_kind("return") if e.value != ("const", None)] + [e.value for e in ft.of_kind("yield")]
+        col.check(bool(outs) and all(o == calls[0].term for o in outs), ref.where(calls[0].node), ref.short,
+                  "the entry point hands back the worker's result unchanged (no rounding / rescaling on one entry point only)", construct="entry-result",
+                  necessity="the single-player and all-players entry points must return the same numbers; rounding also breaks linearity and efficiency for small-magnitude games")
         col.check(oks, ref.where(calls[0].node), ref.short, "the singleton is the requested player's (all players 0..n-1 in order for the all-players entry point)",
                   construct="entry-singleton", necessity="relabelling players must permute the values; player i's value must be at position i")
     # exclude_coalition
